@@ -20,6 +20,53 @@ theorem inside_preserves_outside (S : Schema) (doc doc' : Node) (a b : Nat) (st 
     (ftoks doc'.kids).take (a + 1) = (ftoks doc.kids).take (a + 1) ∧
     (ftoks doc'.kids).drop (b - 1 + (fsize doc'.kids) - (fsize doc.kids)) = (ftoks doc.kids).drop (b - 1) ∧
     fsize doc.kids ≤ b - 1 + fsize doc'.kids := by
-  sorry
+  have hbl : b ≤ (ftoks doc.kids).length := by rw [ftoks_length]; exact hb
+  rw [← ftoks_length doc'.kids, ← ftoks_length doc.kids]
+  have node : ∀ pos, a < pos → pos + 1 < b →
+      ((∃ m, st = .addNodeMark pos m) ∨ (∃ m, st = .removeNodeMark pos m) ∨ (∃ n v, st = .attr pos n v)) →
+      (ftoks doc'.kids).take (a + 1) = (ftoks doc.kids).take (a + 1) ∧
+      (ftoks doc'.kids).drop (b - 1 + (ftoks doc'.kids).length - (ftoks doc.kids).length)
+        = (ftoks doc.kids).drop (b - 1) ∧
+      (ftoks doc.kids).length ≤ b - 1 + (ftoks doc'.kids).length := by
+    intro pos h1 h2 hst
+    obtain ⟨n, u, attrs, marks, hn, hu, hr, _⟩ := nodeStep_cases S doc doc' pos st hst h
+    obtain ⟨_, e, _⟩ := nodeRepl_toks S doc doc' n u pos attrs marks hn hu hr
+    exact splice_outside _ [u.headTok] _ pos (pos + 1) a b h1 (by omega) h2 hbl e
+  cases st with
+  | replace F T sl c =>
+    simp only [insideNode, Bool.and_eq_true, decide_eq_true_eq] at hm
+    obtain ⟨e, _⟩ := apply_replace_toks S doc doc' F T sl c h
+    exact splice_outside _ _ _ F T a b hm.1.1 hm.1.2 hm.2 hbl e
+  | replaceAround F T gf gt sl i c =>
+    simp only [insideNode, Bool.and_eq_true, decide_eq_true_eq] at hm
+    obtain ⟨w1, w2, w3⟩ := hwf F T gf gt sl i c rfl
+    obtain ⟨e, _⟩ := apply_replaceAround_toks S doc doc' F T gf gt sl i c w1 w2 w3 h
+    refine splice_outside _ (sl.toks.take i ++ ((ftoks doc.kids).drop gf).take (gt - gf) ++ sl.toks.drop i)
+      _ F T a b hm.1.1 hm.1.2 hm.2 hbl ?_
+    rw [e]; simp only [List.append_assoc]
+  | addMark F T m =>
+    simp only [insideNode, Bool.and_eq_true, decide_eq_true_eq] at hm
+    obtain ⟨e, _⟩ := apply_addMark_toks S doc doc' F T m h
+    rw [e]
+    refine pointwise_outside _ _ F T a b hm.1 hm.2 (mapIdxCtx_length _ _ _) ?_
+    intro j hj
+    exact mapIdxCtx_outside _ _ _ F T (fun i p tok hi => by rw [if_neg (fun hc => hi ⟨hc.1, hc.2.1⟩)]) j hj
+  | removeMark F T m =>
+    simp only [insideNode, Bool.and_eq_true, decide_eq_true_eq] at hm
+    obtain ⟨e, _⟩ := apply_removeMark_toks S doc doc' F T m h
+    rw [e]
+    refine pointwise_outside _ _ F T a b hm.1 hm.2 (mapIdxCtx_length _ _ _) ?_
+    intro j hj
+    exact mapIdxCtx_outside _ _ _ F T (fun i p tok hi => by rw [if_neg (fun hc => hi ⟨hc.1, hc.2.1⟩)]) j hj
+  | addNodeMark p m =>
+    simp only [insideNode, Bool.and_eq_true, decide_eq_true_eq] at hm
+    exact node p hm.1 hm.2 (.inl ⟨m, rfl⟩)
+  | removeNodeMark p m =>
+    simp only [insideNode, Bool.and_eq_true, decide_eq_true_eq] at hm
+    exact node p hm.1 hm.2 (.inr (.inl ⟨m, rfl⟩))
+  | attr p n v =>
+    simp only [insideNode, Bool.and_eq_true, decide_eq_true_eq] at hm
+    exact node p hm.1 hm.2 (.inr (.inr ⟨n, v, rfl⟩))
+  | docAttr n v => simp [insideNode] at hm
 
 end PM.C18
